@@ -46,4 +46,20 @@ CHECKS = {
             dict(test="TestC02Plain", unit="plain", kind="rapid", checks=(1600, 40000), shards=(8, 16)),
         ],
     ),
+    "C09": dict(
+        level="exploration",
+        technique="model-based property testing (rapid): operation sequences on the library view vs. slices of the canonical image; small-scope exhaustive boundary-pair sweep",
+        rule="trees of <= 4 files with boundary sizes (0,1,2047..2049,4095..4097,64 KiB+-1,100000), optionally in a sub-directory, plain and PS3 mode; operation "
+             "sequences of 1..40 Read(n)/Seek(off,whence)/ReadAt(n,off) with offsets given absolutely or relative (+-3) to the structural boundaries found by the "
+             "independent ISO reader (metadata end, each file start/end/padded end, pad-area start, total size) and lengths chosen to end at such a boundary; every "
+             "result is compared with the slice of the canonical image (one sequential sector-aligned read, length == announced size) under the io.Reader/io.ReaderAt/"
+             "io.Seeker contracts; then reads must progress to exactly the announced size and EOF. 1/6 of the trees get the exhaustive sweep: ReadAt for all "
+             "(offset, end) pairs from {boundaries +-1}. non-trivial = a range edge within 3 bytes of a structural boundary with an unaligned offset/length; distinct "
+             "by (call kind, boundary kind, delta, offset mod 2048, length class)",
+        assumptions=["the canonical image is what one sequential aligned read returns; its agreement with the source tree is C07's subject",
+                     "ReadAt with a negative offset is outside the stated domain and is not generated"],
+        units=[
+            dict(test="TestC09Lib", unit="lib", kind="rapid", checks=(2400, 60000), shards=(8, 16)),
+        ],
+    ),
 }
